@@ -1,5 +1,6 @@
 import BadgerModel.Mvcc
 import BadgerProofs.Lemmas.Txn
+import BadgerProofs.Lemmas.Sorted
 /-!
 # C04 — a read-write transaction sees its own pending writes; nobody else does.
 (Get part. The iterator overlay is `C04_iter_pending_first`: pending writes are source 0 of
@@ -65,12 +66,137 @@ theorem C04_modify_isolated (d : Db) (id : Nat) (e : Ent) :
       intro id' hne
       exact findTxn_setTxn_ne d t' id' (by rw [hid]; exact hne)
 
+/-- Pending writes are invisible to every other transaction before the commit: a `Set`/`Delete`
+    in transaction `id` changes no `Get` answer and no iteration of any other transaction
+    `id'` (the LSM tree, the clock and the other transaction records are untouched). -/
+theorem C04_commit_invisible_before (d : Db) (id : Nat) (e : Ent) :
+    (d.modify id e).1.lsm = d.lsm ∧
+    ∀ id', id' ≠ id →
+      (∀ k, ((d.modify id e).1.txnGet id' k).2 = (d.txnGet id' k).2) ∧
+      (∀ o seek, (d.modify id e).1.iterate id' o seek = d.iterate id' o seek) := by
+  have hl := modify_lsm d id e
+  have hn := modify_now d id e
+  refine ⟨hl, ?_⟩
+  intro id' hne
+  have hf := (C04_modify_isolated d id e).2.2.2 id' hne
+  constructor
+  · intro k
+    cases ht : d.findTxn id' with
+    | none =>
+      have ht' : (d.modify id e).1.findTxn id' = none := by rw [hf, ht]
+      simp only [Db.txnGet, ht, ht']
+    | some t =>
+      have ht' : (d.modify id e).1.findTxn id' = some t := by rw [hf, ht]
+      rw [txnGet_eq k ht, txnGet_eq k ht', hl, hn]
+  · intro o seek
+    simp only [Db.iterate, hf, hl, hn]
+
+/-- …and so does any sequence of writes of transaction `id`. -/
+theorem C04_pending_invisible_seq (d : Db) (id : Nat) (ws : List Ent) (id' : Nat) (hne : id' ≠ id) :
+    let d' := ws.foldl (fun d e => (d.modify id e).1) d
+    d'.lsm = d.lsm ∧ (∀ k, (d'.txnGet id' k).2 = (d.txnGet id' k).2) ∧
+    (∀ o seek, d'.iterate id' o seek = d.iterate id' o seek) := by
+  induction ws generalizing d with
+  | nil => exact ⟨rfl, fun _ => rfl, fun _ _ => rfl⟩
+  | cons e ws ih =>
+    simp only [List.foldl_cons]
+    obtain ⟨h1, h2, h3⟩ := ih (d.modify id e).1
+    obtain ⟨g1, g2⟩ := C04_commit_invisible_before d id e
+    obtain ⟨g3, g4⟩ := g2 id' hne
+    exact ⟨h1.trans g1, fun k => (h2 k).trans (g3 k), fun o seek => (h3 o seek).trans (g4 o seek)⟩
+
+/-! ## the iterator overlay: pending writes are input 0 of the merge -/
+
+theorem pendingSource_sorted (t : TxnM) : SortedEnts (pendingSource t) := by
+  unfold pendingSource
+  split
+  · exact sortedEnts_nil
+  · exact foldl_memPut_sorted sortedEnts_nil
+
+theorem pendingSource_mem {t : TxnM} {p : Ent} (hp : p ∈ pendingSource t) :
+    t.update = true ∧ ∃ e ∈ t.pending, p = { e with ver := t.readTs } := by
+  unfold pendingSource at hp
+  split at hp
+  · cases hp
+  · rename_i hu
+    refine ⟨by simpa using hu, ?_⟩
+    rcases mem_foldl_memPut hp with h | h
+    · obtain ⟨e, he, rfl⟩ := List.mem_map.mp h
+      exact ⟨e, he, rfl⟩
+    · cases h
+
+/-- every pending write (one per key) is in the pending source, at version `readTs` -/
+theorem pendingSource_complete {t : TxnM} (hu : t.update = true)
+    (hpk : t.pending.Pairwise (fun a b => a.key ≠ b.key)) {e : Ent} (he : e ∈ t.pending) :
+    ({ e with ver := t.readTs } : Ent) ∈ pendingSource t := by
+  unfold pendingSource
+  simp only [hu, Bool.not_true, Bool.false_eq_true, if_false]
+  apply mem_foldl_memPut_of_distinct
+  · rw [List.pairwise_map]
+    exact hpk.imp (fun hab hc => hab hc.1)
+  · exact List.mem_map_of_mem he
+
+/-- **Read your own writes in iterators.** In `Db.iterate` the pending source is the first input
+    of `mergeAll`, so for every pending write `p` (read at version `readTs`):
+    * the merged stream contains `p`;
+    * `p` is the newest version `≤ readTs` of its key in the merged stream — every snapshot
+      version of that key, also one with version exactly `readTs`, is shadowed;
+    * `p` is the *first* entry of its key with version `≤ readTs` in stream order (so the
+      forward scan, which takes the first such entry of each key, takes `p`).
+    Combined with `C05_forward` / `C05_reverse` (the scan yields, per key, the newest version
+    `≤ readTs` of the merged stream, if live) this is the overlay semantics: value, user meta,
+    expiry and deletion of the pending write replace the snapshot's. -/
+theorem C04_iter_pending_first (d : Db) (t : TxnM) (p : Ent)
+    (hs : ∀ s ∈ d.lsm.sources, SortedEnts s) (hp : p ∈ pendingSource t) :
+    p ∈ mergeAll (pendingSource t :: d.lsm.sources) ∧ p.ver = t.readTs ∧
+    SortedEnts (mergeAll (pendingSource t :: d.lsm.sources)) ∧
+    newestLE (mergeAll (pendingSource t :: d.lsm.sources)) p.key t.readTs = some p ∧
+    (mergeAll (pendingSource t :: d.lsm.sources)).find?
+      (fun x => decide (x.key = p.key ∧ x.ver ≤ t.readTs)) = some p := by
+  have hall : ∀ s ∈ pendingSource t :: d.lsm.sources, SortedEnts s := by
+    intro s hs'
+    rcases List.mem_cons.mp hs' with rfl | hs'
+    · exact pendingSource_sorted t
+    · exact hs s hs'
+  have hsorted := mergeAll_sorted hall
+  have hmem : p ∈ mergeAll (pendingSource t :: d.lsm.sources) := by
+    rw [mergeAll_cons, mem_merge2 (pendingSource_sorted t) (mergeAll_sorted hs)]
+    exact .inl hp
+  have hver : p.ver = t.readTs := by
+    obtain ⟨-, e, -, rfl⟩ := pendingSource_mem hp
+    rfl
+  have hnew : newestLE (mergeAll (pendingSource t :: d.lsm.sources)) p.key t.readTs = some p := by
+    rw [newestLE_sorted_some_iff hsorted]
+    refine ⟨hmem, rfl, by omega, ?_⟩
+    intro x _ _ hx
+    omega
+  refine ⟨hmem, hver, hsorted, hnew, ?_⟩
+  rw [← newestLE_sorted_eq_find? hsorted]
+  exact hnew
+
 -- non-vacuity: a concrete transaction with a pending write over a snapshot value
 example :
     let d0 := Db.init { maxBatchCount := 100, maxBatchSize := 100000 } 0
     let d1 := (d0.begin 1 true 0).1
     let d2 := (d1.modify 1 { key := [0x61], ver := 0, emeta := 0, umeta := 7, exp := 0, val := [1, 2] }).1
     (match (d2.txnGet 1 [0x61]).2 with | .found e v => e.val == [1, 2] && v == 0 | _ => false) = true := by
+  decide
+
+-- non-vacuity of `C04_iter_pending_first`: a committed value for `a`, then a pending overwrite in
+-- transaction 2: every source is sorted and the pending copy (at version readTs = 1) is in the
+-- pending source. (`mergeAll` itself is defined by well-founded recursion and does not reduce
+-- under `decide`; the end-to-end behaviour on concrete histories is the differential harness.)
+example :
+    let d0 := Db.init { maxBatchCount := 100, maxBatchSize := 100000 } 0
+    let d1 := (d0.begin 1 true 0).1
+    let e : Ent := { key := [0x61], ver := 0, emeta := 0, umeta := 7, exp := 0, val := [1] }
+    let d2 := ((d1.modify 1 e).1.commit 1 0).1
+    let d3 := ((d2.begin 2 true 0).1.begin 3 false 0).1
+    let d4 := (d3.modify 2 { e with val := [2] }).1
+    (∀ s ∈ d4.lsm.sources, List.Pairwise (fun a b => entCmp a b = .lt) s) ∧
+    ((d4.findTxn 2).any (fun t =>
+        decide (({ e with val := [2], ver := 1 } : Ent) ∈ pendingSource t) && t.readTs == 1) = true) ∧
+    d4.lsm.mem.map (·.val) = [[1]] := by
   decide
 
 end Badger
